@@ -30,7 +30,8 @@ DPS = [(1, 1), (2, 1), (3, 2), (4, 3)]
 
 
 def bounds(tier):
-    return {'shapes': [list(s) for s in SHAPES], 'DP': DPS, 'symvec_N': [1, 2, 3, 4, 5], 'pivot_N_max': 6 if tier == 'quick' else 7}
+    return {'shapes': [list(s) for s in SHAPES], 'DP': DPS, 'symvec_N': [1, 2, 3, 4, 5], 'pivot_N_max': 6 if tier == 'quick' else 7,
+            'lu2': {'N': [2, 3, 4], 'D_max': 6 if tier == 'quick' else 8, 'P': [1, 2]}}
 
 
 def vals(shape, off=0, cplx=False):
@@ -49,6 +50,8 @@ def units(tier, seed):
         us.append({'kind': 'piv', 'N': N, 'tier': tier, 'seed': seed})
     for N in (2, 3):
         us.append({'kind': 'lu', 'N': N, 'tier': tier, 'seed': seed})
+    for N in (2, 3, 4):
+        us.append({'kind': 'lu2', 'N': N, 'tier': tier, 'seed': seed})
     return us
 
 
@@ -373,6 +376,111 @@ def run_lu(c, N):
     c.out['counters']['distinct_pivot_vectors_from_lu_factor_N%d' % N] = len(seen)
 
 
+def conv(Xs, Ys, d):
+    return sum(np.dot(Xs[i], Ys[d - i]) for i in range(d + 1))
+
+
+def det_series(A, D):
+    """exact truncated power series of det(A(t)) for integer coefficient matrices (Leibniz formula over Fractions)"""
+    N = A[0].shape[0]
+    tot = [Fraction(0)] * D
+    for perm in itertools.permutations(range(N)):
+        sgn = 1
+        for i in range(N):
+            for j in range(i + 1, N):
+                if perm[i] > perm[j]:
+                    sgn = -sgn
+        ser = [Fraction(sgn)] + [Fraction(0)] * (D - 1)
+        for i in range(N):
+            f = [Fraction(int(A[d][i, perm[i]])) for d in range(D)]
+            ser = [sum(ser[k] * f[d - k] for k in range(d + 1)) for d in range(D)]
+        tot = [a + b for a, b in zip(tot, ser)]
+    return tot
+
+
+def run_lu2(c, N, tier):
+    """the polynomial LU factorisation behind det / logdet: for every pivot vector lu_factor produces on small-integer base
+    matrices, every D up to the bound and different pivot vectors in different directions,
+    piv2mat(PIV) L U == A and det(A) == piv2det(PIV) prod(diag U) coefficient by coefficient"""
+    ent = (-1, 0, 1, 2) if N == 2 else (-1, 0, 1) if N == 3 else (0, 1)
+    reps = {}
+    import random
+    rng = random.Random(12345)
+    if N <= 3:
+        cand = itertools.product(ent, repeat=N * N)
+    else:
+        cand = (tuple(rng.choice((-2, -1, 0, 1, 2, 3)) for _ in range(N * N)) for _ in range(6000))
+    for flat in cand:
+        A0 = np.array(flat, dtype=float).reshape(N, N)
+        if abs(np.linalg.det(A0)) < 0.5 or np.linalg.cond(A0) > 50:
+            continue
+        piv = tuple(int(v) for v in scipy.linalg.lu_factor(A0)[1])
+        reps.setdefault(piv, [])
+        if len(reps[piv]) < 2:
+            reps[piv].append(A0)
+    c.out['counters']['lu2_distinct_pivot_vectors_N%d' % N] = len(reps)
+    bases = [(pv, A0) for pv in sorted(reps) for A0 in reps[pv]]
+    Ds = (1, 2, 3, 4, 5, 6) if tier == 'quick' else (1, 2, 3, 4, 5, 6, 7, 8)
+    for bi, (pv, A0) in enumerate(bases):
+        for D in Ds:
+            for P in (1, 2):
+                data = np.zeros((D, P, N, N))
+                for p in range(P):
+                    data[0, p] = bases[(bi + 5 * p) % len(bases)][1]
+                    for d in range(1, D):
+                        data[d, p] = np.array([[((3 * i + 5 * j + 7 * d + 2 * p + bi) % 7) - 3 for j in range(N)] for i in range(N)], dtype=float)
+                A = UTPM(data.copy())
+                c.ev(D > 1)
+                case = {'N': N, 'D': D, 'P': P, 'pivots': list(pv), 'base': bi}
+                dsub = 'D<=3' if D <= 3 else 'D>3'
+                try:
+                    PIV, L, U = UTPM.lu2(A)
+                    W = UTPM.piv2mat(PIV)
+                    sg = UTPM.piv2det(PIV)
+                    dt = UTPM.det(UTPM(data.copy()))
+                except Exception as e:
+                    c.fail('lu2 raises', dsub, dict(case, error=str(e)[:200]))
+                    continue
+                if not np.array_equal(A.data, data):
+                    c.fail('lu2', 'argument modified', case)
+                for p in range(P):
+                    Ls = [L.data[d, p] for d in range(D)]
+                    Us = [U.data[d, p] for d in range(D)]
+                    scale = 1.0 + max(np.abs(L.data[:, p]).max(), 1.0) * max(np.abs(U.data[:, p]).max(), 1.0) * D * N
+                    bad = None
+                    for d in range(D):
+                        PLU = np.dot(W.data[0, p], conv(Ls, Us, d))
+                        if not np.all(np.abs(PLU - data[d, p]) <= 1e-10 * scale):
+                            bad = ('P L U = A (polynomial)', d)
+                            break
+                        if np.any(np.triu(Ls[d], 0 if d else 1) != 0) and d > 0:
+                            bad = ('L unit lower triangular', d)
+                            break
+                        if np.any(np.tril(Us[d], -1) != 0):
+                            bad = ('U upper triangular', d)
+                            break
+                    if bad is None and (not np.array_equal(np.diag(Ls[0]), np.ones(N)) or np.any(np.triu(Ls[0], 1) != 0)):
+                        bad = ('L unit lower triangular', 0)
+                    if bad is None:
+                        # det(A) = sign * prod(diag U) as power series, against the exact Leibniz series
+                        ser = np.zeros(D)
+                        ser[0] = 1.0
+                        for i in range(N):
+                            f = np.array([Us[d][i, i] for d in range(D)])
+                            ser = np.array([np.dot(ser[:d + 1], f[:d + 1][::-1]) for d in range(D)])
+                        ser = ser * sg.data[0, p]
+                        ex = np.array([float(v) for v in det_series([data[d, p] for d in range(D)], D)])
+                        dscale = 1.0 + np.abs(ex).max() + scale ** 2
+                        if not np.all(np.abs(ser - ex) <= 1e-10 * dscale):
+                            bad = ('det = sign prod diag U (polynomial)', int(np.argmax(np.abs(ser - ex))))
+                        elif not np.all(np.abs(dt.data[:, p] - ex) <= 1e-10 * dscale):
+                            bad = ('UTPM.det (polynomial)', int(np.argmax(np.abs(dt.data[:, p] - ex))))
+                    if bad is not None:
+                        c.fail('lu2 ' + bad[0], dsub + ('|direction 0' if p == 0 else '|direction >0'), dict(case, coefficient=bad[1], direction=p))
+                        break
+    c.out['samples'].append({'lu2': {'N': N, 'pivot_vectors': len(reps), 'D': list(Ds), 'P': [1, 2]}})
+
+
 def run_unit(u):
     c = Ctx(u)
     k = u['kind']
@@ -394,6 +502,8 @@ def run_unit(u):
         run_utpmpiv(c)
     elif k == 'lu':
         run_lu(c, u['N'])
+    elif k == 'lu2':
+        run_lu2(c, u['N'], u['tier'])
     return c.out
 
 
